@@ -244,3 +244,27 @@ func TestDbgShrinkExec(t *testing.T) {
 	b, _ := json.MarshalIndent(map[string]interface{}{"property": "C01", "signature": want, "case": c}, "", " ")
 	os.WriteFile(strings.TrimSuffix(path, ".json")+".min.json", b, 0o644)
 }
+
+// TestDbgRepeat posts the operation of an exec case (VERIF_PLAN) 40 times to fresh gateways and prints the distinct raw answers.
+func TestDbgRepeat(t *testing.T) {
+	path := os.Getenv("VERIF_PLAN")
+	if path == "" {
+		t.Skip()
+	}
+	var c ExecCase
+	if _, _, err := ev.LoadCase(path, &c); err != nil {
+		t.Fatal(err)
+	}
+	seen := map[string]int{}
+	for i := 0; i < 40; i++ {
+		out, f := runExec(&c)
+		if f != nil {
+			seen["FAIL "+f.Signature]++
+			continue
+		}
+		seen[string(out.Raw.Body)]++
+	}
+	for k, v := range seen {
+		fmt.Printf("%3d x %s\n", v, strings.TrimSpace(k))
+	}
+}
